@@ -83,22 +83,84 @@ def choose_core():
     return cases
 
 
+def compose_core():
+    """`do choose` / `do shuffle` over SCENARIOS in a compose block (list and dict forms, preconditions
+    from a step-indexed table), and run-time random values drawn in compose blocks and monitors (of
+    the top-level scenario and of a sub-scenario)."""
+    cases = []
+    beh = {"pre": [], "inv": [], "body": [["while", "T", [["take", 1]]]]}
+    mon_draw = {"pre": [], "inv": [], "body": [["rand", 0, 1, "m"], ["wait"], ["rand", 1, 3, "n"], ["wait"], ["wait"]]}
+    mon_loop = {"pre": [], "inv": [], "body": [["while", "T", [["rand", 0, 2, "k"], ["wait"]]]]}
+
+    def sd(**kw):
+        d = {"pre": [], "termWhen": [], "termSimWhen": [], "termAfter": [], "records": [], "monitors": [],
+             "hascompose": False, "compose": []}
+        d.update(kw)
+        return d
+
+    subs = [
+        sd(pre=["p1"], hascompose=True, compose=[["log", "s2"], ["wait"], ["log", "s2b"]]),
+        sd(pre=["p2"], termAfter=[2, "steps"], records=[["rec", "r3"]]),
+        sd(pre=[], hascompose=True, compose=[["log", "s4"], ["rand", 0, 1, "c"], ["wait"]]),
+        sd(pre=["p3"], monitors=[2], termAfter=[2, "steps"]),
+    ]
+    weightings = [[1, 1, 1], [1, 2, 3], [3, 1, 2]]
+    tables = [
+        {"p1": [True], "p2": [True], "p3": [True]},
+        {"p1": [True, False, False, True], "p2": [True], "p3": [True]},
+        {"p1": [False], "p2": [True], "p3": [True]},
+        {"p1": [False, True], "p2": [False, False, True], "p3": [False]},
+        {"p1": [False], "p2": [False], "p3": [False]},
+    ]
+    for form in ("schoose", "sshuffle"):
+        for nitems in (2, 3):
+            for ws in weightings:
+                for tab in tables:
+                    items = [[i + 2, ws[i]] for i in range(nitems)]
+                    top = [["log", "a"], [form, items], ["log", "after"], ["wait"], [form, [[2, ws[0]], [4, ws[2]]]], ["log", "end"]]
+                    t = {"T": [True], "F": [False]}
+                    t.update(tab)
+                    sdefs = [sd(hascompose=True, compose=top)] + subs
+                    cases.append({
+                        "defs": [beh, mon_draw, mon_loop], "agents": [1], "sdefs": sdefs, "top": 1,
+                        "monitors": [2], "records": [], "termWhen": [], "termSimWhen": [], "termAfter": [],
+                        "maxSteps": 9, "dt": [1, 1], "table": t, "sched": [[1]], "impl": 0,
+                    })
+    # draws in the top-level compose block and in monitors of the top-level scenario
+    for mons in ([2], [3], [2, 3]):
+        top = [["rand", 0, 1, "x"], ["wait"], ["rand", 0, 2, "y"], ["rand", 0, 1, "z"], ["sdo", [4]], ["wait"]]
+        sdefs = [sd(hascompose=True, compose=top, monitors=mons)] + subs
+        cases.append({
+            "defs": [beh, mon_draw, mon_loop], "agents": [1], "sdefs": sdefs, "top": 1,
+            "monitors": sorted(set(mons) | {2}), "records": [], "termWhen": [], "termSimWhen": [], "termAfter": [],
+            "maxSteps": 4, "dt": [1, 1], "table": {"T": [True], "F": [False], "p1": [True], "p2": [True], "p3": [True]},
+            "sched": [[1]], "impl": 0,
+        })
+    return cases
+
+
 def main(tier):
     ck = Check("C19", tier, "model_checking")
     ck.cov["rule"] = (
         "cases = (program with do choose / do shuffle over 2-3 sub-behaviours in list or weighted dict form, "
-        "step-dependent preconditions/invariants, run-time DiscreteRange draws; truth table); exhaustive small core "
+        "step-dependent preconditions/invariants, run-time DiscreteRange draws; or a modular program whose compose "
+        "block chooses/shuffles over 2-3 sub-scenarios and whose compose blocks and monitors draw run-time values; "
+        "truth table); exhaustive small core "
         "plus seeded random programs x 4 tables; for each case EVERY outcome of the random number generator is "
         "enumerated on both sides; non-trivial = the law has at least two outcomes; distinct by (program text, table)"
     )
     ck.assumptions += [
         "scripted random module: random.choices / random.randint are replaced and every alternative is executed once; "
         "branch weights are computed from the logged arguments",
-        "behaviours only (choose/shuffle in compose blocks is not covered yet)",
+        "choose/shuffle over behaviours (in behaviours) and over scenarios (in compose blocks); run-time draws in "
+        "behaviours, monitors and compose blocks; random programs cover the behaviour forms only",
     ]
     core = choose_core()
+    comp = compose_core()
     if tier == "quick":
         core = core[seed() % 2 :: 2]
+        comp = comp[seed() % 2 :: 2] + comp[-3:]
+    core = core + comp
     n = 50 if tier == "quick" else 800
     rand = gen_dynamic.generate(seed() * 6007 + 19, n, "choose")
     cases = core + rand
